@@ -529,9 +529,11 @@ class FakeClientFactory(object):
   def reinjectDatapoints(self):
     metrics = list(self.queue)
     log.clients("Re-injecting %d metrics from %s" % (len(metrics), self))
+    # Empty the buffer first: a metric that still has no destination comes
+    # straight back into it and must not be wiped afterwards.
+    self.queue.clear()
     for metric, datapoint in metrics:
         state.events.metricGenerated(metric, datapoint)
-    self.queue.clear()
 
 
 class CarbonClientManager(Service):
